@@ -74,7 +74,7 @@ class ConnectionWorld(World):
         delayed = prop == "C06" or (ckind == "lateral" and rc.random() < 0.5)
         cfg["delayed"] = delayed
         if delayed:
-            kmax = rc.choice([1, 3, 3, 6])
+            kmax = rc.choice([1, 3, 3, 6, 0, 0.5, 2.5])
             cfg["kmax"] = kmax
             cfg["delay_k"] = self._delay_pattern(rc, nsyn, kmax, prop)
         nin = cfg["B"] * int(np.prod(cfg["inshape"]))
@@ -98,6 +98,8 @@ class ConnectionWorld(World):
                 elif k < 0.75:
                     ops.append({"op": "update", "seed": ro.randrange(1 << 30), "bound": ro.choice([None, "mult", "sharp"]),
                                 "param": ro.choice(["weight", "weight", "delay"])})
+                elif k < 0.8 and ckind == "lateral":
+                    ops.append({"op": "assign_delay_raw", "seed": ro.randrange(1 << 30)})
                 elif k < 0.9:
                     ops.append({"op": "assign_delay", "delay_k": self._delay_pattern(ro, nsyn, cfg.get("kmax", 1), prop, allow_diag=True)})
                 elif k < 0.95:
@@ -126,14 +128,16 @@ class ConnectionWorld(World):
     @staticmethod
     def _delay_pattern(r, nsyn, kmax, prop, allow_diag=False):
         c = r.random()
+        ik = int(math.floor(kmax))
+        grid = [float(k) for k in range(ik + 1)] + ([float(kmax)] if kmax != ik else [])    # whole steps, and the maximum itself
         if c < 0.2:
             return [0.0] * nsyn
         if c < 0.4:
-            return [float(r.randint(0, kmax))] * nsyn
-        if c < 0.85 or kmax < 1:
-            return [float(r.randint(0, kmax)) for _ in range(nsyn)]
+            return [r.choice(grid)] * nsyn
+        if (c < 0.85 and kmax == ik) or kmax == 0:
+            return [r.choice(grid) for _ in range(nsyn)]
         # delays between grid points (interpolated history)
-        return [min(float(kmax), r.randint(0, max(kmax - 1, 0)) + r.choice([0.0, 0.5, 0.25, 0.75])) for _ in range(nsyn)]
+        return [min(float(kmax), r.randint(0, max(ik - (kmax == ik), 0)) + r.choice([0.0, 0.5, 0.25, 0.75])) for _ in range(nsyn)]
 
     # ------------------------------------------------------------------ construction
     def _build(self, cfg, delayed, ctx):
@@ -293,6 +297,20 @@ class ConnectionWorld(World):
                 delays_zero = all(k == 0 for k in eff)
                 ctx.log("assign_delay", ks)
                 lateral_invariant("delay assignment")
+            elif name == "assign_delay_raw":
+                # "whatever is assigned": arbitrary positive values, also above the supported maximum; the valid delays are put back at once
+                if not cfg["delayed"]:
+                    continue
+                keep = conn.delay.detach().clone()
+                g = torch.Generator().manual_seed(op["seed"])
+                raw = (torch.randint(1, 9, tuple(keep.shape), generator=g).float() / 2.0) * dt
+                with ctx.impl("assign delay", facts):
+                    conn.delay = raw
+                ctx.fault("out_of_range_delay_assignment")
+                lateral_invariant("raw delay assignment")
+                with ctx.impl("assign delay", facts):
+                    conn.delay = keep
+                lateral_invariant("delay assignment")
             elif name == "update":
                 p = op["param"]
                 if p == "delay" and not cfg["delayed"]:
@@ -320,6 +338,7 @@ class ConnectionWorld(World):
                     conn.update()
                 ctx.fault("trainer_style_update")
                 ctx.log("update", p, op["bound"], getattr(conn, p))
+                lateral_invariant(f"{p} update ({op['bound']}), as applied")
                 if p == "weight":
                     W = _f64(conn.weight)     # adopt (C10 owns the update algebra); the diagonal is checked below
                 else:
@@ -511,6 +530,10 @@ class ConnectionWorld(World):
                     with ctx.impl(f"syn{kind}", facts):
                         got = A.syncurrent if kind == "current" else A.synspike
                     want, amb = shifted(kind)
+                    if kmax == 0:
+                        # documented: a maximum delay of 0 registers the delay parameter "but does not use delays" - the views are the undelayed ones
+                        want = histB_cur[0] if kind == "current" else histB_spk[0]
+                        amb = np.zeros(want.shape, dtype=bool)
                     g = _f64(got)
                     ctx.judged += 1
                     if g.shape != want.shape:
